@@ -119,18 +119,22 @@ Cases ==
   [g : {"index"}, len : 0..5, i : 1..Len(IdxU), asvar : BOOLEAN]
   \cup [g : {"look"}, b : 1..Len(BaseU), p : 1..Len(Paths(Var(A))), strict : BOOLEAN]
   \cup {x \in [g : {"pipe"}, r : 1..Len(RecvU), ss : UNION {SeqsOfLen(n, Len(Steps)) : n \in 1..D}, direct : BOOLEAN] : TRUE}
-  \cup [g : {"bad"}, f : 1..Len(AllFilters), kind : {"toomany"}]
+  \cup [g : {"bad"}, f : 1..Len(AllFilters), kind : {"toomany", "toomany-nil", "toomany-undef"}]
   \cup [g : {"bad"}, f : {1}, kind : {"unknown", "unknown-args", "unknown-mid"}]
   \cup [g : {"lit"}, v : 1..Len(LitU), form : {"print", "eq", "assign"}]
   \cup [g : {"space"}, q : 1..Len(SpaceProgs), sp : 1..Len(Spacings), tight : BOOLEAN]
 
 ManyArgs(f) == [k \in 1..(DocArgs(f) + 2) |-> Lit(IntV(1))]
+\* the right number of proper arguments, then surplus ones that evaluate to nil
+NilSurplus(f, e) == [k \in 1..(DocArgs(f) + 2) |-> IF k <= DocArgs(f) THEN Lit(Str(<<120>>)) ELSE e]
 ProgOf(x) ==
   CASE x.g = "index" -> <<T(<<91>>), Ob(Ix(Var(A), IF x.asvar THEN Var(I) ELSE Lit(IdxU[x.i]))), T(<<93>>)>>
     [] x.g = "look" -> <<T(<<91>>), Ob(Paths(Var(A))[x.p]), T(<<93>>)>>
     [] x.g = "pipe" -> IF x.direct THEN <<Ob(Chain(Var(A), x.ss))>> ELSE Decomposed(x.ss)
     [] x.g = "bad" ->
          (CASE x.kind = "toomany" -> <<Ob(Fl(Var(A), AllFilters[x.f], ManyArgs(AllFilters[x.f])))>>
+            [] x.kind = "toomany-nil" -> <<Ob(Fl(Var(A), AllFilters[x.f], NilSurplus(AllFilters[x.f], Lit(Nil))))>>
+            [] x.kind = "toomany-undef" -> <<Ob(Fl(Var(A), AllFilters[x.f], NilSurplus(AllFilters[x.f], Var(<<117, 110, 100>>))))>>
             [] x.kind = "unknown" -> <<T(<<120>>), Ob(Fl(Var(A), "no_such_filter", <<>>))>>
             [] x.kind = "unknown-args" -> <<Ob(Fl(Var(A), "nosuch", <<Lit(IntV(1))>>))>>
             [] x.kind = "unknown-mid" -> <<Ob(Fl(Fl(Fl(Var(A), "upcase", <<>>), "nosuch", <<>>), "size", <<>>))>>)
